@@ -42,6 +42,7 @@ type smpBeh struct {
 }
 
 type smpParams struct {
+	InitMin string `json:",omitempty"`
 	N, M, Tick int
 	InitOpen   bool // window already open (InitResetAt large)
 }
@@ -94,7 +95,20 @@ type smpRig struct {
 	hooks []smpHookCall
 	gate  *Gate
 	viaLogger bool
+	mode  int // front end / wrapping used by log(); see smpModes
+	al    zap.AtomicLevel
+	min   string // the wrapped core's current minimum level, in the spec's names
 }
+
+// smpModes: the ways an entry reaches the sampler. The sampling rule is a property of the core, so every one of
+// them must show the same decisions.
+var smpModes = []string{"core", "logger", "sugar-template", "tee-after-accepting-core", "level-lowered-after-construction", "sugar-ln", "tee-through-logger", "sugar-w"}
+
+var smpMinLevels = map[string]zapcore.Level{"off": zapcore.DebugLevel, "on": zapcore.InfoLevel, "on2": zapcore.WarnLevel, "none": zapcore.ErrorLevel}
+var smpRank = map[string]int{"off": 0, "on": 1, "on2": 2, "none": 3, "oor": 9}
+
+func (r *smpRig) setMin(m string) { r.min = m; r.al.SetLevel(smpMinLevels[m]) }
+func (r *smpRig) enabled(lvl string) bool { return smpRank[lvl] >= smpRank[r.min] }
 
 type smpHookCall struct {
 	who string // goroutine/process name when known
@@ -103,9 +117,18 @@ type smpHookCall struct {
 	dec zapcore.SamplingDecision
 }
 
-func newSmpRig(p smpParams, g *Gate) *smpRig {
-	r := &smpRig{gate: g}
-	obs, logs := observer.New(zap.LevelEnablerFunc(func(l zapcore.Level) bool { return l != zapcore.DebugLevel }))
+func newSmpRig(p smpParams, g *Gate) *smpRig { return newSmpRigMode(p, g, 0) }
+
+func newSmpRigMode(p smpParams, g *Gate, mode int) *smpRig {
+	r := &smpRig{gate: g, mode: mode, viaLogger: mode == 1}
+	// the wrapped core's level is an AtomicLevel the application may move at any time; in one mode it stands
+	// above every in-range test level while the sampler is constructed and is lowered afterwards
+	r.al = zap.NewAtomicLevelAt(zapcore.InfoLevel)
+	if smpModes[mode] == "level-lowered-after-construction" {
+		r.al.SetLevel(zapcore.ErrorLevel)
+	}
+	defer r.setMin("on")
+	obs, logs := observer.New(r.al)
 	r.logs = logs
 	root := zapcore.NewSamplerWithOptions(obs, time.Duration(int64(p.Tick)*smpUnit), p.N, p.M,
 		zapcore.SamplerHook(func(e zapcore.Entry, d zapcore.SamplingDecision) {
@@ -121,6 +144,13 @@ func newSmpRig(p smpParams, g *Gate) *smpRig {
 			}
 		}))
 	r.cores = map[string]zapcore.Core{"root": root, "child": root.With([]zapcore.Field{zap.String("derived", "yes")})}
+	if m := smpModes[mode]; m == "tee-after-accepting-core" || m == "tee-through-logger" {
+		// the sampler is not the first core of a tee: it is handed an entry another core already accepted
+		acc := &smpCountCore{}
+		for k, c := range r.cores {
+			r.cores[k] = zapcore.NewTee(acc, c)
+		}
+	}
 	return r
 }
 
@@ -131,10 +161,22 @@ func (c smpClock) Now() time.Time                       { return c.t }
 func (c smpClock) NewTicker(d time.Duration) *time.Ticker { return time.NewTicker(d) }
 
 func (r *smpRig) log(e smpEnt, msgs map[string]string, tag string) {
-	if r.viaLogger {
+	if m := smpModes[r.mode]; r.viaLogger || m == "tee-through-logger" || strings.HasPrefix(m, "sugar") {
 		// through the zap.Logger front end (which stamps the entry from its clock before the core sees it)
 		lg := zap.New(r.cores[e.Core], zap.WithClock(smpClock{time.Unix(0, smpBase+int64(e.T)*smpUnit)})).Named(tag)
-		lg.Log(smpLevels[e.Lvl], msgs[e.Msg])
+		msg := msgs[e.Msg]
+		switch m {
+		case "sugar-template":
+			// the message the core sees is the rendered one, whatever the template was
+			h := len(msg) / 2
+			lg.Sugar().Logf(smpLevels[e.Lvl], "%s%s", msg[:h], msg[h:])
+		case "sugar-ln":
+			lg.Sugar().Logln(smpLevels[e.Lvl], msg)
+		case "sugar-w":
+			lg.Sugar().Logw(smpLevels[e.Lvl], msg, "k", e.T)
+		default:
+			lg.Log(smpLevels[e.Lvl], msg)
+		}
 		return
 	}
 	ent := zapcore.Entry{Level: smpLevels[e.Lvl], Message: msgs[e.Msg], Time: time.Unix(0, smpBase+int64(e.T)*smpUnit), LoggerName: tag}
@@ -169,6 +211,14 @@ func checkC11(c *Ctx) {
 	}
 	c.MustTLC(TLCOpts{Module: "Sampler", Cfg: "Sampler.seq", Consts: map[string]string{"WindowCmp": `"ge"`}, ExpectViolation: true})
 	c.MustTLC(TLCOpts{Module: "Sampler", Cfg: "Sampler.seq", Consts: map[string]string{"ModRule": `"one"`}, ExpectViolation: true})
+	lvlConsts := map[string]string{"E": "3", "Levels": `{"on", "on2", "off", "oor"}`, "Times": "{0, 1, 2}", "MaxToggles": "2"}
+	c.MustTLC(TLCOpts{Module: "Sampler", Cfg: "Sampler.seq", Consts: lvlConsts})
+	c.MustTLC(TLCOpts{Module: "Sampler", Cfg: "Sampler.conc", Consts: map[string]string{"G": `{"g1", "g2"}`, "Levels": `{"on", "off"}`, "MaxToggles": "2"}})
+	lvlMut := map[string]string{"LevelRead": `"construct"`}
+	for k, v := range lvlConsts {
+		lvlMut[k] = v
+	}
+	c.MustTLC(TLCOpts{Module: "Sampler", Cfg: "Sampler.seq", Consts: lvlMut, ExpectViolation: true})
 
 	// ---- sequential histories replayed on the real sampler
 	nseq := 0
@@ -186,10 +236,12 @@ func checkC11(c *Ctx) {
 			if nseq%2003 == 1 {
 				c.Sample(map[string]interface{}{"mode": "seq", "params": p, "entries": smpEntries(b)})
 			}
-			for _, mm := range []map[string]string{msgs, longMsgs} {
-				for _, f := range smpReplaySeq(b, p, mm) {
-					c.Violation(f.Key, f.What, map[string]interface{}{"mode": "seq", "params": p, "beh": b, "msgs": mm})
+			for i, mm := range []map[string]string{msgs, longMsgs} {
+				mode := (nseq*2 + i) % len(smpModes)
+				for _, f := range smpReplaySeq(b, p, mm, mode) {
+					c.Violation(f.Key, f.What, map[string]interface{}{"mode": "seq", "via": smpModes[mode], "params": p, "beh": b, "msgs": mm})
 				}
+				c.Add("seq_via_"+smpModes[mode], 1)
 			}
 			c.Add("traces_validated_against_impl", 1)
 		}
@@ -201,6 +253,12 @@ func checkC11(c *Ctx) {
 	mixed := smpParams{N: 1, M: 2, Tick: 2}
 	c.MustTLC(TLCOpts{Module: "Sampler", Cfg: "Sampler.seq", Gen: true, Workers: 1, Simulate: fmt.Sprintf("num=%d", c.Pick(1500, 20000)), Depth: 80, Seed: c.Seed,
 		Consts: smpConsts(mixed, map[string]string{"Emit": "TRUE", "E": "7", "Levels": `{"on", "on2", "off", "oor"}`, "Msgs": `{"a", "a2", "b"}`, "Cores": `{"root", "child"}`}), OnBeh: seqCb(mixed)})
+	// the application moves the wrapped core's level while the history runs
+	for _, im := range []string{"on", "none", "off"} {
+		tg := smpParams{N: 1, M: 2, Tick: 2, InitMin: im}
+		c.MustTLC(TLCOpts{Module: "Sampler", Cfg: "Sampler.seq", Gen: true, Workers: 1, Simulate: fmt.Sprintf("num=%d", c.Pick(700, 8000)), Depth: 80, Seed: c.Seed + 7,
+			Consts: smpConsts(tg, map[string]string{"Emit": "TRUE", "E": "6", "Levels": `{"on", "on2", "off", "oor"}`, "Msgs": `{"a", "b"}`, "Times": "{0, 1, 2}", "InitMin": `"` + im + `"`, "MaxToggles": "3"}), OnBeh: seqCb(tg)})
+	}
 	c.Set("sequential_histories_replayed", int64(nseq))
 
 	// ---- concurrent schedules forced through the gates
@@ -294,7 +352,7 @@ func smpExpect(b smpBeh) (dec map[string]bool, fwd map[string]bool) {
 }
 
 // smpReplaySeq: one goroutine; the spec's dec/fwd (TLC-checked equal to the reference rule) are the oracle.
-func smpReplaySeq(b smpBeh, p smpParams, msgs map[string]string) (finds []Finding) {
+func smpReplaySeq(b smpBeh, p smpParams, msgs map[string]string, mode int) (finds []Finding) {
 	add := func(key, f string, a ...interface{}) { finds = append(finds, Finding{Key: key, What: fmt.Sprintf(f, a...)}) }
 	defer func() {
 		if r := recover(); r != nil {
@@ -302,10 +360,16 @@ func smpReplaySeq(b smpBeh, p smpParams, msgs map[string]string) (finds []Findin
 		}
 	}()
 	zapcore.VerifHook = nil
-	rig := newSmpRig(p, nil)
-	rig.viaLogger = len(b.H)%2 == 1
+	rig := newSmpRigMode(p, nil, mode)
+	if p.InitMin != "" {
+		rig.setMin(p.InitMin)
+	}
 	dec, fwd := smpExpect(b)
 	for _, a := range b.H {
+		if a.A == "SetMin" {
+			rig.setMin(a.E.Lvl)
+			continue
+		}
 		if a.A != "Start" {
 			continue
 		}
@@ -313,10 +377,14 @@ func smpReplaySeq(b smpBeh, p smpParams, msgs map[string]string) (finds []Findin
 		h0, l0 := len(rig.hooks), rig.logs.Len()
 		rig.log(a.E, msgs, id)
 		nh, nl := len(rig.hooks)-h0, rig.logs.Len()-l0
-		desc := fmt.Sprintf("N=%d M=%d tick=%d history=%v entry %s (%s/%s/%s t=%d)", p.N, p.M, p.Tick, smpEntries(b), id, a.E.Core, a.E.Lvl, a.E.Msg, a.E.T)
+		desc := fmt.Sprintf("N=%d M=%d tick=%d via %s, history=%v entry %s (%s/%s/%s t=%d, wrapped core's level %s)", p.N, p.M, p.Tick, smpModes[mode], smpEntries(b), id, a.E.Core, a.E.Lvl, a.E.Msg, a.E.T, rig.min)
 		wantDec, decided := dec[id]
 		switch {
-		case a.E.Lvl == "off":
+		case !rig.enabled(a.E.Lvl):
+			if decided {
+				add("HARNESS/C11-decision-for-disabled-in-spec", "%s", desc)
+				continue
+			}
 			if nh != 0 || nl != 0 {
 				add("C11/disabled-level-consumed", "%s: a disabled-level entry caused %d hook calls and %d forwards", desc, nh, nl)
 			}
@@ -372,10 +440,12 @@ func smpReplayGate(b smpBeh, p smpParams, msgs map[string]string) (finds []Findi
 	}
 	for i, a := range b.H {
 		switch a.A {
+		case "SetMin":
+			rig.setMin(a.E.Lvl)
 		case "Start":
 			e, id := a.E, fmt.Sprintf("%s/%d", a.G, a.K)
 			g.Go(a.G, func() { rig.log(e, msgs, id) })
-			if e.Lvl == "off" || e.Lvl == "oor" {
+			if !rig.enabled(e.Lvl) || e.Lvl == "oor" {
 				ncalls[a.G]++
 				if !g.WaitDone(a.G, ncalls[a.G], to) {
 					return finds, fail(i, a, "undecided entry did not return")
